@@ -41,7 +41,7 @@ def tables(wd, family: str, *, rnd_seed: int | None = None, rndn=5, rndk=8) -> d
 
 def warm_all() -> None:
     wd = workdir("sep-warm")
-    for fam in ("A3", "A4o", "M3", "C5"):
+    for fam in ("A3", "A4o", "M3", "C5", "D5"):
         mc(wd, fam)
         tables(wd, fam)
 
